@@ -63,3 +63,59 @@ Proof.
   apply Z.bits_above_log2; [lia|].
   assert (Z.log2 a < w) by (apply Z.log2_lt_pow2; lia). lia.
 Qed.
+
+Lemma bits_hi_zero_lt v n : 0 <= n -> 0 <= v ->
+  (forall i, n <= i -> Z.testbit v i = false) -> v < 2 ^ n.
+Proof.
+  intros Hn Hv H.
+  assert (E : v = v mod 2 ^ n).
+  { apply Z.bits_inj'. intros i Hi. rewrite tb_mod_pow2 by lia.
+    destruct (i <? n) eqn:L; cbn [andb]; [reflexivity|]. apply Z.ltb_ge in L. apply H; lia. }
+  rewrite E. apply Z.mod_pos_bound. apply pow2_pos; lia.
+Qed.
+
+Lemma land_range x y n : 0 <= n -> 0 <= x < 2 ^ n -> 0 <= y -> 0 <= Z.land x y < 2 ^ n.
+Proof.
+  intros Hn Hx Hy. split; [apply Z.land_nonneg; lia|].
+  apply bits_hi_zero_lt; [lia|apply Z.land_nonneg; lia|].
+  intros i Hi. rewrite Z.land_spec, (tb_range_hi x n i) by lia. reflexivity.
+Qed.
+
+Lemma lor_range x y n : 0 <= n -> 0 <= x < 2 ^ n -> 0 <= y < 2 ^ n -> 0 <= Z.lor x y < 2 ^ n.
+Proof.
+  intros Hn Hx Hy. split; [apply Z.lor_nonneg; lia|].
+  apply bits_hi_zero_lt; [lia|apply Z.lor_nonneg; lia|].
+  intros i Hi. rewrite Z.lor_spec, (tb_range_hi x n i), (tb_range_hi y n i) by lia. reflexivity.
+Qed.
+
+Lemma lxor_range x y n : 0 <= n -> 0 <= x < 2 ^ n -> 0 <= y < 2 ^ n -> 0 <= Z.lxor x y < 2 ^ n.
+Proof.
+  intros Hn Hx Hy. split; [apply Z.lxor_nonneg; lia|].
+  apply bits_hi_zero_lt; [lia|apply Z.lxor_nonneg; lia|].
+  intros i Hi. rewrite Z.lxor_spec, (tb_range_hi x n i), (tb_range_hi y n i) by lia. reflexivity.
+Qed.
+
+Lemma div_le_self x y : 0 <= x -> 0 < y -> 0 <= x / y <= x.
+Proof.
+  intros. split; [apply Z.div_pos; lia|]. apply Z.div_le_upper_bound; nia.
+Qed.
+
+Lemma lor_shiftl_add x y n : 0 <= n -> 0 <= y < 2 ^ n -> Z.lor (Z.shiftl x n) y = x * 2 ^ n + y.
+Proof.
+  intros Hn Hy.
+  rewrite <- Z.lxor_lor.
+  - rewrite <- Z.add_nocarry_lxor; [rewrite Z.shiftl_mul_pow2 by lia; reflexivity|].
+    apply Z.bits_inj'. intros i Hi. rewrite Z.land_spec, Z.bits_0, tb_shl by lia.
+    destruct (i <? n) eqn:L.
+    + apply Z.ltb_lt in L. rewrite (Z.testbit_neg_r x (i - n)) by lia. rewrite andb_false_r. reflexivity.
+    + apply Z.ltb_ge in L. rewrite (tb_range_hi y n i) by lia. apply andb_false_r.
+  - apply Z.bits_inj'. intros i Hi. rewrite Z.land_spec, Z.bits_0, tb_shl by lia.
+    destruct (i <? n) eqn:L.
+    + apply Z.ltb_lt in L. rewrite (Z.testbit_neg_r x (i - n)) by lia. rewrite andb_false_r. reflexivity.
+    + apply Z.ltb_ge in L. rewrite (tb_range_hi y n i) by lia. apply andb_false_r.
+Qed.
+
+Lemma concat_range x y m n : 0 <= m -> 0 <= n -> 0 <= x < 2 ^ m -> 0 <= y < 2 ^ n -> 0 <= x * 2 ^ n + y < 2 ^ (m + n).
+Proof.
+  intros. rewrite Z.pow_add_r by lia. pose proof (pow2_pos n ltac:(lia)). nia.
+Qed.
